@@ -210,6 +210,7 @@ struct Subject<'a> {
 #[derive(Default)]
 struct Counters {
     agree: AtomicU64,
+    equal_types: AtomicU64,
     field_queries: AtomicU64,
     lookups: AtomicU64,
     census: Mutex<BTreeMap<String, u64>>,
@@ -273,7 +274,13 @@ fn check(cx: &Cx, s: &Subject, cnt: &Counters) {
     let mut cfg = CmpCfg::default();
     cfg.applied = false;
     cfg.descriptions = s.descriptions;
-    for d in compare(&exp, &intro.model, &cfg, &optional) {
+    let mut differing: BTreeSet<String> = BTreeSet::new();
+    let diffs = compare(&exp, &intro.model, &cfg, &optional);
+    for d in &diffs {
+        differing.insert(d.path.split('.').next().unwrap_or("").to_string());
+    }
+    cnt.equal_types.fetch_add(exp.types.keys().filter(|n| !differing.contains(*n) && !optional.contains(*n)).count() as u64, Ordering::Relaxed);
+    for d in diffs {
         if d.aspect == "implements" && intro.interfaces_null.contains(&d.path) {
             continue; // reported as member-null-for-kind
         }
@@ -337,9 +344,10 @@ fn check(cx: &Cx, s: &Subject, cnt: &Counters) {
         }
         for missing in want.difference(&got_set) {
             let transitive = !exp.types.get(missing).map(|o| o.interfaces.contains(n)).unwrap_or(false);
+            let what = if t.kind == MKind::Union { "misses-a-member" } else if transitive { "misses-a-transitive-implementor" } else { "misses-an-implementor" };
             emit(
                 "possible-types-differ",
-                vec![("kind", t.kind.word().into()), ("what", if transitive { "misses-a-transitive-implementor" } else { "misses-an-implementor" }.into()), ("flavour", s.flavour.into())],
+                vec![("kind", t.kind.word().into()), ("what", what.into()), ("flavour", s.flavour.into())],
                 format!("possibleTypes of {} {n}: expected {want:?}, got {got:?} ({missing} missing)", t.kind.word()),
             );
         }
@@ -712,8 +720,10 @@ fn run(cx: &Cx) {
         cx.nontrivial_count(1);
     });
 
-    if cnt.agree.load(Ordering::Relaxed) == 0 {
-        cx.machinery_error("no schema's introspection agreed with its reference: the oracle is vacuous or systematically wrong");
+    // vacuity guard on the finest grain (a defect that touches every schema must still come
+    // out as a violation, not as a machinery problem)
+    if cnt.equal_types.load(Ordering::Relaxed) == 0 {
+        cx.machinery_error("not a single type was introspected as defined: the oracle is vacuous or systematically wrong");
     }
     cx.rule(&format!(
         "case = (schema, request context). Schemas: the derive family (every definition kind, 8 text symbol classes × 13 slot kinds), S1, the visibility schema under all 16 contexts (type × field × argument+input field × enum value), {} generated dynamic schemas (D(S1), interface chain, leaves: each with every single{} edit of field wrapper / custom scalar / union ±member / −implements / +enum value; the described exemplar); variants the dynamic builder rejects are dropped. Per case: the standard introspection query, {} `__type` lookups and {} generated field queries in total, plus 7 probes per visibility context. Non-trivial = every case.",
@@ -727,6 +737,7 @@ fn run(cx: &Cx) {
     cx.extra("dynamic_variants", json!(variants.len()));
     cx.extra("variants_rejected_by_builder", json!(rejected_by_builder.load(Ordering::Relaxed)));
     cx.extra("cases_fully_consistent", json!(cnt.agree.load(Ordering::Relaxed)));
+    cx.extra("types_introspected_exactly", json!(cnt.equal_types.load(Ordering::Relaxed)));
     cx.extra("type_lookups", json!(cnt.lookups.load(Ordering::Relaxed)));
     cx.extra("field_queries", json!(cnt.field_queries.load(Ordering::Relaxed)));
     cx.extra("discrepancy_census", json!(*cnt.census.lock().unwrap()));
